@@ -198,22 +198,23 @@ Definition tune_branch (c : cfg) (st : state) (slow : N) : res state :=
     [max().unwrap()] on no samples, the division by the precision, the u32
     doubling, the division of the per-input total by the sample size, and the
     conversions of Model/Timestamp.v. *)
+Definition round_body (c : cfg) (init : N) (st : state) (size : N) (obs : round_obs) : res state :=
+  do durs <- map_res (raw_duration c) obs;
+  let slow := nmax_list durs in
+  do st1 <- tune_branch c st slow;
+  if c_input_counts c && (size =? 0) then Panic DivByZero
+  else
+    let '(sto, rem) := fold_left (record_step c size) (combine obs durs) (s_store st1, s_rem st1) in
+    do el <- (if c_skip c then Ok (sat_add 128 (s_elapsed st1) (N.max slow min_progress_picos))
+              else tsc_duration (nmax_list (map r_end obs)) init (c_freq c));
+    Ok {| s_mode := s_mode st1; s_rem := rem; s_elapsed := el;
+          s_size := s_size st1; s_store := sto; s_sizes := s_sizes st1 |}.
+
 Definition round_step (c : cfg) (init : N) (st : state) (obs : round_obs) : res state :=
   let size := mode_size (s_mode st) in
-  let st := with_round st size in
   match obs with
   | [] => Panic UnwrapNone
-  | _ :: _ =>
-      do durs <- map_res (raw_duration c) obs;
-      let slow := nmax_list durs in
-      do st1 <- tune_branch c st slow;
-      if c_input_counts c && (size =? 0) then Panic DivByZero
-      else
-        let '(sto, rem) := fold_left (record_step c size) (combine obs durs) (s_store st1, s_rem st1) in
-        do el <- (if c_skip c then Ok (sat_add 128 (s_elapsed st1) (N.max slow min_progress_picos))
-                  else tsc_duration (nmax_list (map r_end obs)) init (c_freq c));
-        Ok {| s_mode := s_mode st1; s_rem := rem; s_elapsed := el;
-              s_size := s_size st1; s_store := sto; s_sizes := s_sizes st1 |}
+  | _ :: _ => round_body c init (with_round st size) size obs
   end.
 
 (** How a run over a finite history ends: the loop returned, or the history
